@@ -138,3 +138,57 @@ def hypotest_traces(tests, skip_failed=True):
             elif cur is not None and ev.startswith("fit."):
                 cur["fits"].append(r)
     return out
+
+
+def _fit_event(f):
+    e = {"ev": f["ev"]}
+    if f["ev"] == "fit.shim":
+        e.update(npars=f["npars"], init=[L(x) for x in f["init"]], bounds=[[L(a), L(b)] for a, b in f["bounds"]],
+                 fixed_vals=[[i, L(v)] for i, v in f["fixed_vals"]], do_grad=f["do_grad"], do_stitch=f["do_stitch"],
+                 x0=[L(x) for x in f["x0"]], vbounds=[[L(a), L(b)] for a, b in f["vbounds"]],
+                 mfixed=[[i, L(v)] for i, v in f["mfixed"]])
+    elif f["ev"] == "fit.raw":
+        e.update(x=[L(x) for x in f["x"]], fun=L(f["fun"]), success=f["success"])
+    elif f["ev"] == "fit.return":
+        e.update(x=[L(x) for x in f["x"]], fun=L(f["fun"]), fun_ulps=0)
+    return e
+
+
+def teststat_traces(tests, skip_failed=True, per_test=40):
+    """one trace per test-statistic call a repository test made (ts.call ... ts.return bracket from the plugin's observer, the H4 records
+    of its two fits in between), in the format of TraceTestStat.tla; only 64b sessions (d = f1 - f2 is re-formed here in binary64).
+    Calls that did not return (refusals, warnings turned into errors) leave no bracket and are dropped."""
+    out = []
+    for nodeid, start, recs, failed in tests:
+        if (failed and skip_failed) or start.get("precision") != "64b":
+            continue
+        cur, k = None, 0
+        prec_changed = False
+        for r in recs:
+            ev = r["ev"]
+            if ev.startswith("set_backend"):
+                prec_changed = True      # the test switched backend/precision itself: the start record no longer tells the precision
+            if ev == "ts.call":
+                cur = {"call": r, "fits": []}
+            elif cur is not None and ev.startswith("fit."):
+                cur["fits"].append(r)
+            elif ev == "ts.return" and cur is not None:
+                c, fits = cur["call"], cur["fits"]
+                cur = None
+                if prec_changed or k >= per_test or c["poi"] is None:
+                    continue
+                rets = [f for f in fits if f["ev"] == "fit.return"]
+                if len(rets) != 2:
+                    continue
+                try:
+                    evs = [{"ev": "ts.call", "kind": c["kind"], "mu": L(c["mu"]), "poi": c["poi"], "held": [[i, L(v)] for i, v in c["held"]]}]
+                    evs += [_fit_event(f) for f in fits if f["ev"] in ("fit.shim", "fit.raw", "fit.return")]
+                    f1, f2 = rets[0]["fun"], rets[1]["fun"]
+                    evs.append({"ev": "ts.return", "result": L(r["result"]),
+                                "pars1": [L(x) for x in r.get("pars1", rets[0]["x"])], "pars2": [L(x) for x in r.get("pars2", rets[1]["x"])],
+                                "f1": L(f1), "f2": L(f2), "d": L(f1 - f2)})
+                except (ValueError, TypeError):
+                    continue
+                k += 1
+                out.append({"id": 0, "label": f"{nodeid}#{k}", "events": evs})
+    return out
